@@ -949,6 +949,30 @@ def ck_types(args, val, exc):
 
 
 # ===================================================================== Native entries
+CALL_LIMIT_S = 20.0     # a single call of the real code that does not return within this time is a contract violation (non-termination)
+_ALARM = []
+
+
+class CallTimeout(Exception):
+    pass
+
+
+def _guarded(f, *args):
+    import signal, threading
+    if threading.current_thread() is not threading.main_thread():
+        return f(*args)
+    if not _ALARM:
+        def on_alarm(signum, frame):
+            raise CallTimeout(f'call did not return within {CALL_LIMIT_S} s')
+        signal.signal(signal.SIGALRM, on_alarm)
+        _ALARM.append(1)
+    signal.setitimer(signal.ITIMER_REAL, CALL_LIMIT_S)
+    try:
+        return f(*args)
+    finally:
+        signal.setitimer(signal.ITIMER_REAL, 0)
+
+
 NATIVE = {}
 PROP = {}           # name -> property id ('C23' / 'C24' / 'C24x' = not in a driver)
 
@@ -962,7 +986,7 @@ def _add(n, prop):
 
 def _mk(o, rep):
     def call(p, *args):
-        return o.real(_cls(rep, p), *args)
+        return _guarded(o.real, _cls(rep, p), *args)
 
     def check(args, res, exc):
         return o.ck(args[0], args[1:], res, exc)
@@ -974,7 +998,7 @@ def _mk(o, rep):
 
 def _mk_agree(o):
     def call(p, *args):
-        return (_try(lambda: o.real(_cls('bin', 2), *args)), _try(lambda: o.real(_cls('list2', 2), *args)))
+        return (_try(lambda: _guarded(o.real, _cls('bin', 2), *args)), _try(lambda: _guarded(o.real, _cls('list2', 2), *args)))
 
     def check(args, res, exc):
         if exc: return unexpected(exc)
@@ -992,11 +1016,11 @@ for _o_ in OPS:
 
 _add(Native('GFpX_types', 'mpyc.gfpx.GFpX', call_types, ck_types, lambda t: ((p,) for p in range(-3, T(t, 60, 300))),
             'p in -3..59 (thorough 299): ValueError exactly for non-primes; GFpX(2) is the binary class, odd p a list class with .p = p; cached; P() == 0'), 'C23')
-_add(Native('find_irreducible_d1', 'mpyc.finfields.find_irreducible', call_find_irreducible, ck_find_irreducible, in_find_irreducible(1, 1),
+_add(Native('find_irreducible_d1', 'mpyc.finfields.find_irreducible', lambda *a: _guarded(call_find_irreducible, *a), ck_find_irreducible, in_find_irreducible(1, 1),
             'd = 1, p in {2,3,5,7} (thorough: p <= 13)'), 'C24')
-_add(Native('find_irreducible', 'mpyc.finfields.find_irreducible', call_find_irreducible, ck_find_irreducible, in_find_irreducible(2, 9),
+_add(Native('find_irreducible', 'mpyc.finfields.find_irreducible', lambda *a: _guarded(call_find_irreducible, *a), ck_find_irreducible, in_find_irreducible(2, 9),
             'p in {2,3,5,7}, d in 2..4 with p^d <= 3000 (thorough: p <= 13, d <= 6, p^d <= 20000)'), 'C24')
-_add(Native('GF_gate', 'mpyc.finfields.GF', call_gf_gate, ck_gf_gate, in_gf_gate,
+_add(Native('GF_gate', 'mpyc.finfields.GF', lambda *a: _guarded(call_gf_gate, *a), ck_gf_gate, in_gf_gate,
             'all polynomials (incl. 0 and constants) of degree <= 3 over p in {2,3,5} (thorough: p=2 deg<=6, p=3,5 deg<=4, p=7 deg<=3)'), 'C24')
 
 
